@@ -8,7 +8,20 @@ Tie (a) H1 (harness/h1_c03_driver.c, real libmcount as producer): random schedul
         SIGSEGV / abort / _exit / execv / finish trigger / exit under the snapshot's real `uftrace record`;
         the recorder must terminate, leave a complete directory, every <tid>.dat must be whole records forming
         a prefix of the thread's ground-truth log (with the lower bounds the property states), and
-        replay / report / dump / info must accept the directory."""
+        replay / report / dump / info must accept the directory.
+Every termination is crossed with record-time filter option sets:
+    in-process (hist_*): a random call history through the real hooks under -N / -F / -D / -t / -Z / -L / triggers
+        (depth, notrace, trace_off) chosen relative to the call stack at the fatal moment, ended by a real SIGSEGV /
+        SIGABRT (libmcount's segv_handler) or a finish trigger, against the hook model + Crash.segvFlush (uv_C04: `H …`,
+        `HSEGV`); monitor: the calls still open in the record stream = the recordable open calls the documented filter
+        semantics select (corpus/C04/filtered_flush.json first);
+    e2e: SIGKILL / SIGSEGV / abort / _exit / execv / finish trigger / exit / signal trigger at a point where the
+        thread has open calls whose ENTRY is still pending, under -N on the dying function or an ancestor, -D at or
+        below its depth, -F subtrees, -t 5s, -Z, --no-libcall, -N on the trigger function; monitor: each <tid>.dat is a
+        whole-record prefix of what `spec_stream` (uftrace-record.md FILTERS) selects from the thread's own log, the
+        terminating thread's file includes the ENTRY of its recordable open calls.
+    probe: a fork that is announced (FORK_START) but never completes (clone fails / the process is killed at clone):
+        `uftrace record` must terminate (finding F-C04-FORK-NOEND)."""
 import glob
 import json
 import os
@@ -17,11 +30,11 @@ import shutil
 import subprocess
 from concurrent.futures import ThreadPoolExecutor
 
-from lib import common as C
+from lib import common as C, mcgen, mcheck
 from checks import c03
 from translators import c04_taskstart
 
-MODES = {1: "SIGKILL", 2: "SIGSEGV", 3: "abort", 4: "_exit", 5: "execv", 6: "finish-trigger", 7: "exit"}
+MODES = {1: "SIGKILL", 2: "SIGSEGV", 3: "abort", 4: "_exit", 5: "execv", 6: "finish-trigger", 7: "exit", 8: "signal-trigger"}
 FLUSHING = (2, 3, 5, 6, 7)     # the thread's open calls are flushed before it goes
 
 
@@ -30,6 +43,7 @@ class KillGen(c03.Gen):
 
     def __init__(self, rng, nthreads, nwriters, maxsize, nops, pfail, payloads, how):
         self.how = how
+        self.dead_losts = how == "ftrig"      # see c03.norm_state
         super().__init__(rng, nthreads, nwriters, maxsize, nops, pfail, payloads)
 
     def drain(self):
@@ -158,16 +172,391 @@ def model_segv(fixed, maxstack, idx, written):
     return C.norm(c03.run_model("C04", [line])[0])
 
 
+
+# --------------------------------------------------------------------------------------------------
+# record-time filters: the documented semantics applied to a thread's ground-truth history
+# --------------------------------------------------------------------------------------------------
+MAIN_FN = 1 << 20      # main() encloses everything the initial thread does (it is traced, and not one of the f<i>)
+
+
+class Flt:
+    """an option set of `uftrace record`: -N / -F functions, -D, a time filter no call of the program reaches
+    (-t 5s), -Z, --no-libcall, -N on the finish-trigger function"""
+
+    def __init__(self, name="none", N=(), F=(), D=None, thuge=False, Z=None, nolib=False, nfin=False):
+        self.name, self.N, self.F, self.D, self.thuge, self.Z, self.nolib, self.nfin = (
+            name, set(N), set(F), D, thuge, Z, nolib, nfin)
+
+    def args(self):
+        a = []
+        for f in sorted(self.F):
+            a += ["-F", "^f%d$" % f]
+        for f in sorted(self.N):
+            a += ["-N", "^f%d$" % f]
+        if self.nfin:
+            a += ["-N", "^finish_trigger_fn$"]
+        if self.D is not None:
+            a += ["-D", str(self.D)]
+        if self.thuge:
+            a += ["-t", "5s"]
+        if self.Z is not None:
+            a += ["-Z", str(self.Z)]
+        if self.nolib:
+            a += ["--no-libcall"]
+        return a
+
+    def plain(self):
+        return not (self.N or self.F or self.D is not None or self.thuge or self.Z is not None)
+
+
+def spec_stream(ev, flt, sizes, outer=()):
+    """uftrace-record.md FILTERS: -F f = f and what it calls; -N f = not f nor what it calls; -D n = n nested levels
+    (counted anew from a -F match); -Z n = only functions of at least n bytes; -t T = calls that ran at least T and
+    their callers - with a T no call reaches: only the calls still open when the trace ends.
+    `outer`: traced functions that enclose the whole history (main() around the initial thread's calls).
+    -> [(code, index into ev)] of the records the thread's history selects, in order; (open visible calls, oldest first)"""
+    optin = bool(flt.F)
+    D = flt.D if flt.D is not None else 1024
+    out = []
+    stack = []          # (fn, visible, saved env, position of its ENTRY in out or None)
+    inc = outc = depth = 0
+    pre = [(2 * f, -1) for f in outer]
+    for c, i in pre + [(c, i) for i, c in enumerate(ev)]:
+        fn = c // 2
+        if c % 2 == 0:
+            saved = (inc, outc, depth)
+            vis = False
+            if outc == 0:
+                matched = True
+                if fn in flt.F:
+                    inc, depth = inc + 1, 0
+                elif fn in flt.N:
+                    outc, depth = outc + 1, 0
+                elif optin and inc == 0:
+                    matched = False
+                if matched and depth < D:
+                    depth += 1
+                    vis = outc == 0 and (flt.Z is None or sizes.get(fn, 1 << 30) >= flt.Z)
+            vis = vis and i >= 0
+            stack.append((fn, vis, saved))
+            if vis:
+                out.append((c, i))
+        else:
+            # the program's own log nests properly per thread
+            while stack and stack[-1][0] != fn:
+                stack.pop()
+            if not stack:
+                continue
+            _, vis, saved = stack.pop()
+            inc, outc, depth = saved
+            if vis:
+                out.append((c, i))
+    opens = [f for f, vis, _ in stack if vis]
+    if flt.thuge:
+        # nothing that returned is kept; the ENTRY records of the open visible calls are what a flush adds
+        st2 = []
+        for c, i in out:
+            if c % 2 == 0:
+                st2.append((c, i))
+            else:
+                st2.pop()
+        return st2, opens
+    return out, opens
+
+
+def filter_sets(rng, stack, sizes, mode, allfns, nouter=0):
+    """option sets relative to the call stack (outermost first) the terminating thread has at the fatal event;
+    `nouter`: traced levels around it (main() for the initial thread)"""
+    top = stack[-1]
+    lv = len(stack) + nouter
+    sets = {"none": Flt(), "N-top": Flt("N-top", N=[top]), "D-eq": Flt("D-eq", D=lv),
+            "t-huge": Flt("t-huge", thuge=True), "nolib": Flt("nolib", nolib=True),
+            "N-top+t-huge": Flt("N-top+t-huge", N=[top], thuge=True),
+            "D-eq+t-huge": Flt("D-eq+t-huge", D=lv, thuge=True)}
+    if len(stack) > 1:
+        anc = rng.choice(stack[:-1])
+        sets["N-anc"] = Flt("N-anc", N=[anc])
+        sets["D-low"] = Flt("D-low", D=rng.randint(1, lv - 1))
+        sets["F-anc"] = Flt("F-anc", F=[rng.choice(stack[:-1])])
+        sets["F-anc+N-top"] = Flt("F-anc+N-top", F=[stack[0]], N=[top])
+        sets["D-low+nolib"] = Flt("D-low+nolib", D=rng.randint(1, lv - 1), nolib=True)
+    sets["F-top"] = Flt("F-top", F=[top])
+    other = [f for f in allfns if f not in stack]
+    if other:
+        sets["F-other"] = Flt("F-other", F=[rng.choice(other)])
+        sets["N-other"] = Flt("N-other", N=[rng.choice(other)])
+    if top in sizes:
+        # the function the thread dies in (and every smaller one) is below the size threshold
+        sets["Z-top"] = Flt("Z-top", Z=sizes[top] + 1)
+        sets["Z-top+t-huge"] = Flt("Z-top+t-huge", Z=sizes[top] + 1, thuge=True)
+    if mode == 6:
+        # the trigger function must reach mcount_entry_filter_record for tracing to finish at all: on the -pg path a
+        # function inside a -N region, outside every -F region or beyond -D is dropped before its triggers are looked at
+        # (documented: filters come first).  So: the trigger function is the deepest level -D admits, or it is itself the
+        # -N / size-filtered function
+        for name in ("N-top", "N-anc", "D-low", "D-low+nolib", "F-other", "F-anc+N-top", "N-top+t-huge"):
+            sets.pop(name, None)
+        sets["D-eq"] = Flt("D-eq", D=lv + 1)
+        sets["D-eq+t-huge"] = Flt("D-eq+t-huge", D=lv + 1, thuge=True)
+        sets["N-fin"] = Flt("N-fin", nfin=True)
+        sets["N-fin+t-huge"] = Flt("N-fin+t-huge", nfin=True, thuge=True)
+    return sets
+
+
+def stack_at(ev, n):
+    st = []
+    for c in ev[:n]:
+        if c % 2 == 0:
+            st.append(c // 2)
+        elif st:
+            st.pop()
+    return st
+
+
+def pending_points(ev, lo=6, hi=2500, chain=3):
+    """event counts k such that the last `chain` events before the fatal one are ENTRYs: the thread dies with open
+    calls whose ENTRY record has not been written yet (nothing returned since they were entered)"""
+    return [k for k in range(max(lo, chain), min(len(ev), hi) + 1) if all(c % 2 == 0 for c in ev[k - chain:k])]
+
+
+# --------------------------------------------------------------------------------------------------
+# in-process: a call history through the real hooks under record-time filters, ended by a real SIGSEGV / SIGABRT
+# (libmcount's segv_handler) or by a finish trigger, against the hook model + Crash.segvFlush
+# --------------------------------------------------------------------------------------------------
+HIST_ENDS = ("segv", "abrt", "finish")
+
+
+def hist_stack(ops):
+    st = []
+    for op in ops:
+        if op[0] == "E":
+            st.append(op[1])
+        elif op[0] == "X" and st:
+            st.pop()
+    return st
+
+
+def hist_opts(rng, stack, end, fin):
+    """-> (mcgen.Opts, family name, core?): option sets relative to the call stack at the fatal moment, plus random ones"""
+    top = stack[-1]
+    anc = rng.choice(stack[:-1]) if len(stack) > 1 else top
+    fams = ["N-top", "N-anc", "D-low", "D-eq", "Z", "F-anc", "t-huge", "t-small", "L-out", "L-in", "T-depth", "T-traceoff",
+            "T-notrace", "N-top+t-huge", "F-anc+D", "random", "random", "random-core"]
+    if end == "finish":
+        fams += ["N-fin", "N-fin", "Z-fin"]
+    name = rng.choice(fams)
+    o = mcgen.Opts()
+    o.patt = rng.choice(["regex", "regex", "glob", "simple"])
+    core = True
+    if name == "N-top":
+        o.N = [top]
+    elif name == "N-anc":
+        o.N = [anc]
+    elif name == "D-low":
+        o.D = rng.randint(1, max(1, len(stack) - 1))
+    elif name == "D-eq":
+        o.D = len(stack)
+    elif name in ("Z", "Z-fin"):
+        o.Z = rng.choice([23, 100, 300])
+    elif name == "F-anc":
+        o.F = [anc]
+    elif name == "t-huge":
+        o.t = 1000000
+    elif name == "t-small":
+        o.t = rng.choice([1, 5, 10, 50])
+    elif name == "L-out":
+        o.L = ("a" if top in mcgen.FILES["a"] else "b", False)
+        core = False
+    elif name == "L-in":
+        o.L = (rng.choice("ab"), True)
+        core = False
+    elif name == "T-depth":
+        o.T = [(anc, [("depth", rng.randint(1, 2))])]
+        core = False
+    elif name == "T-traceoff":
+        o.T = [(rng.choice(stack), [("trace_off", None)])]
+        core = False
+    elif name == "T-notrace":
+        o.T = [(rng.choice(stack), [("notrace", None)])]
+        core = False
+    elif name == "N-top+t-huge":
+        o.N, o.t = [top], 1000000
+    elif name == "F-anc+D":
+        o.F, o.D = [anc], rng.randint(1, 3)
+    elif name == "N-fin":
+        o.N = [fin]
+    elif name == "random-core":
+        o = mcgen.rand_opts(rng, rich=False)
+        o.C, o.L, o.T, o.trace_off, o.max_stack = [], None, [], False, None
+    else:
+        o = mcgen.rand_opts(rng, rich=True)
+        o.max_stack = None
+        core = False
+    if end == "finish":
+        o.T = [(f, a) for f, a in o.T if f != fin] + [(fin, [("finish", None)])]
+        o.F = [f for f in o.F if f != fin] if name != "N-fin" else o.F
+    return o, name, core and not o.C and not o.L and not o.trace_off
+
+
+def hist_case(rng, idx):
+    ops = mcgen.rand_forest(rng, max_calls=rng.choice([6, 12, 25]), max_depth=rng.choice([3, 5, 7]), zero_dur=0.1)
+    e_idx = [j for j, op in enumerate(ops) if op[0] == "E"]
+    # stop inside the forest, preferably deep: after an ENTRY
+    cut = rng.choice(e_idx[len(e_idx) // 3:] or e_idx)
+    pre = ops[:cut + 1]
+    stack = hist_stack(pre)
+    end = rng.choice(HIST_ENDS)
+    # the function that carries the finish trigger is called for the first time at the end of the history
+    free = [f for f in range(9) if not any(op[0] == "E" and op[1] == f for op in pre)]
+    if not free and end == "finish":
+        end = rng.choice(HIST_ENDS[:2])
+    fin = rng.choice(free) if free else 0
+    now = max(op[1] for op in pre if op[0] == "T")
+    if end == "finish":
+        pre += [("T", now + rng.choice([1, 7, 20])), ("E", fin)]
+    o, fam, core = hist_opts(rng, stack, end, fin)
+    kind = rng.choice(["pg", "cyg", "mix"])
+    kf = (lambda fn, i, kind=kind: kind if kind != "mix" else ("pg" if (fn + i) % 2 else "cyg"))
+    lines = mcgen.script_lines(pre, kf)[:-1]       # without END
+    return {"opts": o, "family": fam, "core": core, "kind": kind, "end": end, "fin": fin, "ops": pre, "lines": lines,
+            "stack": stack, "idx": idx}
+
+
+def hist_corpus():
+    """corpus/C04/filtered_flush.json -> cases in the shape of hist_case()"""
+    try:
+        cs = json.load(open(os.path.join(C.VERIF, "corpus", "C04", "filtered_flush.json")))["cases"]
+    except (OSError, ValueError, KeyError):
+        return []
+    out = []
+    for i, c in enumerate(cs):
+        o = mcgen.Opts()
+        for k, v in c.get("opts", {}).items():
+            setattr(o, k, [(fn, [tuple(a) for a in acts]) for fn, acts in v] if k == "T" else v)
+        pre = [tuple(op) for op in c["ops"]]
+        fin = c.get("fin", 0)
+        if c["end"] == "finish":
+            now = max(op[1] for op in pre if op[0] == "T")
+            pre += [("T", now + 10), ("E", fin)]
+            o.T = list(o.T) + [(fin, [("finish", None)])]
+        kind = c["kind"]
+        kf = (lambda fn, j, kind=kind: kind if kind != "mix" else ("pg" if (fn + j) % 2 else "cyg"))
+        core = not (o.T and any(a != "finish" for _, acts in o.T for a, _ in acts)) and not o.L and not o.C
+        out.append({"opts": o, "family": "corpus: " + c["name"], "core": core, "kind": kind, "end": c["end"], "fin": fin,
+                    "ops": pre, "lines": mcgen.script_lines(pre, kf)[:-1], "stack": hist_stack(pre), "idx": 900 + i})
+    return out
+
+
+def hist_env(o):
+    env = mcgen.to_env(o)
+    if "UFTRACE_LOCATION" in env:
+        env["UFTRACE_LOCATION"] = env["UFTRACE_LOCATION"].replace("h1_driver.c", c03.DRIVER)
+    return env
+
+
+def run_hist_case(ctx, exe, c, sizes):
+    sig = {"segv": 11, "abrt": 6}.get(c["end"])
+    script = ["TICK 0"] + c["lines"] + (["RAISE %d" % sig] if sig else [])
+    r = c03.run_harness(ctx, exe, 20000 + c["idx"], 1 << 20, script, extra_env=hist_env(c["opts"]))
+    syms = []
+    for l in r["lines"]:
+        if l.startswith("SYMS"):
+            syms = [int(x, 16) for x in l.split()[1:]]
+    toks = []
+    for typ, payload in r["msgs"]:
+        if typ != "REC_START":
+            continue
+        name = payload.decode(errors="replace").rstrip("\0")
+        try:
+            data = open("/dev/shm" + name, "rb").read()
+        except OSError:
+            continue
+        size = int.from_bytes(data[0:4], "little")
+        t = mcheck.decode(data[16:16 + size].hex(), syms, sizes)
+        if t != "-":
+            toks += t.split()
+    c03.cleanup_run(r)
+    c["impl"] = toks
+    c["rc"] = r["rc"]
+    c["stderr"] = r["stderr"][-300:]
+    c["bad_ops"] = [l for l in r["lines"] if "BAD" in l or l.startswith("bad-op") or l.startswith("survived")]
+    return c
+
+
+def hist_model(cases, sizes, fixed=True):
+    """the same histories on the hook model (uv_C04: `H …` = Driver.Mcount, `HSEGV` = Crash.segvFlush)"""
+    lines, spans = [], []
+    for c in cases:
+        pre = ["H RESET"] + ["H " + l for l in mcgen.to_model(c["opts"], sizes)]
+        body = ["H " + l for l in c["lines"]] + (["HSEGV %d" % (1 if fixed else 0)] if c["end"] != "finish" else [])
+        spans.append((len(lines) + len(pre), len(body)))
+        lines += pre + body
+    out = c03.run_model("C04", lines)
+    for c, (a, n) in zip(cases, spans):
+        toks = []
+        for l in out[a:a + n]:
+            m = re.search(r"recs=\[?([^\]]*)\]?", l)
+            if m and m.group(1).strip() not in ("-", ""):
+                toks += m.group(1).split()
+        c["model"] = toks
+        c["model_last"] = out[a + n - 1] if n else ""
+    return cases
+
+
+def hist_monitor(c, sizes):
+    """C04's clause on the implementation's own output: the calls that are still open in the record stream (ENTRY
+    without EXIT) are exactly the open calls the documented filter semantics select (the RECORDABLE open calls)"""
+    if not c["core"]:
+        return None
+    o = c["opts"]
+    flt = Flt("hist", N=o.N, F=o.F, D=o.D, Z=o.Z)
+    ev, st = [], []
+    for op in c["ops"]:
+        if op[0] == "E":
+            st.append(op[1])
+            ev.append(2 * op[1])
+        elif op[0] == "X" and st:
+            ev.append(2 * st.pop() + 1)
+    opens = spec_stream(ev, flt, sizes)[1]
+    if c["end"] == "finish":
+        # the trigger is looked at only when the filters let the function through (inside a -N region, outside every
+        # -F region or beyond -D it is not: tracing goes on); the function itself may be the -N / size-filtered one
+        f2 = Flt("hist", N=[f for f in o.N if f != c["fin"]], F=o.F, D=o.D)
+        o2 = spec_stream(ev, f2, sizes)[1]
+        if len(o2) != len(spec_stream(ev[:-1], f2, sizes)[1]) + 1:
+            return None
+    got = []
+    for t in c["impl"]:
+        p = t.split(":")
+        if p[0] == "E":
+            got.append(p[2])
+        elif p[0] == "X" and got:
+            got.pop()
+    want = [str(f) for f in opens]
+    if got != want:
+        return ("open calls in the record stream after %s: %s; the recordable open calls of the history under %s are %s "
+                "(call stack at that moment, outermost first: %s)" % (
+                    {"segv": "SIGSEGV", "abrt": "SIGABRT", "finish": "the finish trigger"}[c["end"]],
+                    ["f%s" % x for x in got], mcgen.to_env(o), ["f%s" % x for x in want], ["f%d" % x for x in hist_stack(c["ops"])]))
+    return None
+
 # --------------------------------------------------------------------------------------------------
 # e2e
 # --------------------------------------------------------------------------------------------------
-def expected_bounds(gt, k, killer, kill_at, mode):
+def flushes(mode, flt=None):
+    """does the terminating thread flush its open calls?  exec / exit do it in libmcount's PLT hook of the call"""
+    if flt is not None and flt.nolib and mode in (5, 7):
+        return False
+    return mode in FLUSHING
+
+
+def expected_bounds(gt, k, killer, kill_at, mode, flt=None):
     """-> (lower, upper): the thread's stream must be gt[:n] for some lower <= n <= upper."""
     ev = gt[k]["ev"]
     n = len(ev)
     if k == killer:
         n = min(n, kill_at)
-        if mode in FLUSHING:
+        if flushes(mode, flt):
             # every event up to the fatal one is an executed call; an EXIT logged right before dying has not
             # returned yet
             need = n if (n == 0 or ev[n - 1] % 2 == 0) else n - 1
@@ -178,16 +567,18 @@ def expected_bounds(gt, k, killer, kill_at, mode):
     for i in range(min(lim, len(ev)) - 1):
         if ev[i] % 2 == 1:
             low = i + 1
-    if mode in (6, 7):
-        # tracing stops (finish trigger; exit() runs libmcount's atexit handler first), the program goes on:
+    if mode in (6, 7, 8):
+        # tracing stops (finish trigger; signal trigger; exit() runs libmcount's atexit handler first), the program goes on:
         # later events are not recorded; nothing is known about how far the other threads were at that moment
         return (low if k == killer else 0), len(ev)
     return low, len(ev)
 
 
-def check_crash_run(ctx, d, exe, datadir, gt, nt, killer, kill_at, mode, rc, err):
+def check_crash_run(ctx, d, exe, datadir, gt, nt, killer, kill_at, mode, rc, err, flt=None):
     bad = []
     syms = c03.sym_ranges(exe)
+    flt = flt or Flt()
+    sizes = {fn: sz for _, sz, fn in syms if fn >= 0}
     for f in ("info", "task.txt"):
         if not os.path.exists(os.path.join(datadir, f)) or os.path.getsize(os.path.join(datadir, f)) == 0:
             bad.append("data directory incomplete: no %s" % f)
@@ -199,7 +590,47 @@ def check_crash_run(ctx, d, exe, datadir, gt, nt, killer, kill_at, mode, rc, err
     for k, g in enumerate(gt):
         if not g["tid"]:
             continue
-        low, up = expected_bounds(gt, k, killer, kill_at, mode)
+        low, up = expected_bounds(gt, k, killer, kill_at, mode, flt)
+        if not flt.plain():
+            # "what the thread executed" = the documented filter semantics applied to its history
+            flushing = k == killer and flushes(mode, flt)
+            outer = (MAIN_FN,) if k == 0 else ()
+            if flt.thuge:
+                lowS = [c for c, _ in spec_stream(g["ev"][:low], flt, sizes, outer)[0]] if flushing else []
+                upS = lowS if flushing else [c for c, _ in spec_stream(g["ev"], flt, sizes, outer)[0]]
+            else:
+                S = spec_stream(g["ev"][:up], flt, sizes, outer)[0]
+                upS = [c for c, _ in S]
+                if flushing:
+                    lowS = [c for c, _ in spec_stream(g["ev"][:low], flt, sizes, outer)[0]]
+                else:
+                    # the EXIT record of a selected call whose hook has completed is in a buffer, and so is everything
+                    # selected before it (the ENTRY of a selected call is written with the first record below it)
+                    last = max([i for c, i in S if c % 2 == 1 and i < low] or [-1])
+                    lowS = [c for c, i in S if i <= last]
+            f = os.path.join(datadir, "%d.dat" % g["tid"])
+            own = []
+            if os.path.exists(f):
+                codes, problems, n = c03.decode_dat(f, syms)
+                nrec += n
+                bad += ["thread %d: %s" % (k, p) for p in problems]
+                own = [c for c in codes if isinstance(c, int)]
+                if any(isinstance(c, tuple) and c[0] == "LOST" for c in codes):
+                    bad.append("thread %d: LOST record" % k)
+            who = "thread %d%s" % (k, " (the terminating thread)" if k == killer else "")
+            if own != upS[:len(own)]:
+                j = next((i for i, (a, b) in enumerate(zip(own, upS)) if a != b), min(len(own), len(upS)))
+                bad.append("%s: file is not a prefix of the calls %s selects from what it executed (differs at record %d: "
+                           "file %s, selected %s; file has %d records, %d selected)" % (
+                               who, " ".join(flt.args()), j, own[j:j + 4], upS[j:j + 4], len(own), len(upS)))
+            elif own[:len(lowS)] != lowS:
+                opens = [x for x in spec_stream(g["ev"][:low], flt, sizes, outer)[1]] if flushing else []
+                bad.append("%s: file has %d of the records %s selects, at least %d were complete when it stopped%s "
+                           "(missing from record %d: %s)" % (
+                               who, len(own), " ".join(flt.args()), len(lowS),
+                               " - the ENTRY records of its recordable open calls %s must be included" % (
+                                   ["f%d" % x for x in opens],) if flushing else "", len(own), lowS[len(own):len(own) + 6]))
+            continue
         f = os.path.join(datadir, "%d.dat" % g["tid"])
         if not os.path.exists(f):
             if low > 0:
@@ -224,10 +655,14 @@ def check_crash_run(ctx, d, exe, datadir, gt, nt, killer, kill_at, mode, rc, err
             bad.append("thread %d: file has %d records, the thread executed only %d events" % (k, len(own), up))
     # the analysis commands accept the directory
     uftrace = os.path.join(ctx.src, "uftrace")
+    # a trace in which the filters selected nothing at all (no <tid>.dat): "No data available" is the answer
+    empty = not glob.glob(os.path.join(datadir, "*.dat"))
     for cmd in (["replay"], ["report"], ["dump"], ["info"]):
         r = subprocess.run(["timeout", "-s", "KILL", "30", uftrace] + cmd + ["--no-pager", "-d", datadir],
                            stdout=subprocess.PIPE, stderr=subprocess.PIPE, text=True, errors="replace")
         if r.returncode != 0:
+            if empty and not flt.plain() and cmd[0] != "info" and "No data available" in r.stderr and r.returncode in (1, 255):
+                continue
             bad.append("uftrace %s rejects the directory: rc=%d %s" % (cmd[0], r.returncode, r.stderr[-200:]))
         elif cmd[0] in ("replay", "dump") and nrec > 0 and len(r.stdout) < 10:
             bad.append("uftrace %s prints nothing for %d records" % (cmd[0], nrec))
@@ -525,6 +960,55 @@ def check_exec_run(ctx, exe, datadir, slots, scen, post_kill, err):
 
 shm_leftovers = c03.shm_leftovers
 
+# --------------------------------------------------------------------------------------------------
+# e2e probe: a fork that is announced to the recorder but never completes
+# --------------------------------------------------------------------------------------------------
+FORK_MODES = {0: "control: the fork succeeds", 1: "fork() fails with EAGAIN, the program goes on and exits normally",
+              2: "the process is killed at the clone system call (after libmcount's atfork prepare handler)"}
+
+
+def run_fork_noend(ctx, d, exe, mode):
+    dd = os.path.join(d, "data%d" % mode)
+    uftrace = os.path.join(ctx.src, "uftrace")
+    cmd = ["timeout", "-s", "KILL", "12", uftrace, "record", "--libmcount-path=" + os.path.join(ctx.src, "libmcount"),
+           "--no-pager", "--no-event", "-d", dd, exe, str(mode)]
+    r = subprocess.run(cmd, stdout=subprocess.PIPE, stderr=subprocess.PIPE, text=True, cwd=d)
+    bad = []
+    if r.returncode in (-9, 137):
+        bad.append("uftrace record did not terminate within 12 s (killed by the check)")
+    for f in ("info", "task.txt"):
+        if not os.path.exists(os.path.join(dd, f)) or os.path.getsize(os.path.join(dd, f)) == 0:
+            bad.append("data directory incomplete: no %s" % f)
+    if not glob.glob(os.path.join(dd, "sid-*.map")):
+        bad.append("data directory incomplete: no session map")
+    if not glob.glob(os.path.join(dd, "*.sym")):
+        bad.append("data directory incomplete: no symbol file")
+    if not bad:
+        for cmd2 in (["replay"], ["report"], ["dump"], ["info"]):
+            q = subprocess.run(["timeout", "-s", "KILL", "30", uftrace] + cmd2 + ["--no-pager", "-d", dd],
+                               stdout=subprocess.PIPE, stderr=subprocess.PIPE, text=True, errors="replace")
+            if q.returncode != 0:
+                bad.append("uftrace %s rejects the directory: rc=%d %s" % (cmd2[0], q.returncode, q.stderr[-200:]))
+            elif cmd2[0] == "report":
+                calls = {l.split()[-1]: l.split()[-2] for l in q.stdout.split("\n") if len(l.split()) >= 4}
+                want = {"before": "20"}
+                if mode in (0, 1):
+                    want["after"] = "30"
+                for fn, n in want.items():
+                    if calls.get(fn) != n:
+                        bad.append("report: %s() recorded %s times, called %s times" % (fn, calls.get(fn, 0), n))
+    shm_leftovers(dd)
+    # a recorder that had to be killed has not written its task list: the session map names the session as well
+    for m in glob.glob(os.path.join(dd, "sid-*.map")):
+        for f in glob.glob("/dev/shm/uftrace-%s-*" % os.path.basename(m)[4:-4]):
+            try:
+                os.unlink(f)
+            except OSError:
+                pass
+    shutil.rmtree(dd, ignore_errors=True)
+    return bad
+
+
 
 def _run(ctx):
     ctx.snapshot()
@@ -551,6 +1035,8 @@ def _run(ctx):
     segv = {"runs": 0, "agree_fixed": 0, "agree_prefix_F11": 0, "other": 0}
     steps = {"cases": 0, "instructions": 0, "views": 0, "agree_fixed": 0, "agree_prefix_F12": 0, "other": 0}
     depths, maxstack = [], 8
+    hist = {"runs": 0, "records": 0, "agree": 0, "monitored": 0, "monitor_failures": 0, "with_unrecorded_open_frames": 0,
+            "by_family": {}, "by_end": {}}
     if proof_ok:
         # ---- (a) H1: stop + shutdown schedules ---------------------------------------------------------
         exe, log = c03.build_h1(ctx, out="h1c04")
@@ -724,14 +1210,68 @@ def _run(ctx):
                                  "killed by signal 11, no crash report, open calls not flushed",
                     "theorem": "c04_segv_includes_open_calls (fixed) / c04_prefix_segv_wild_witness (as is)"})
 
+        # ---- the crash handler / finish trigger after a call history under record-time filters ------------------
+        sizes = mcheck.sym_sizes(exe)
+        nh = 90 if ctx.tier == "quick" else 1500
+        hcases = hist_corpus() + [hist_case(ctx.rng, i) for i in range(nh)]
+        with ThreadPoolExecutor(12) as ex:
+            hcases = list(ex.map(lambda c: run_hist_case(ctx, exe, c, sizes), hcases))
+        hist_model(hcases, sizes)
+        hreported = 0
+        for c in hcases:
+            hist["runs"] += 1
+            hist["by_family"][c["family"]] = hist["by_family"].get(c["family"], 0) + 1
+            hist["by_end"][c["end"]] = hist["by_end"].get(c["end"], 0) + 1
+            stackfl = hist_stack(c["ops"])
+            hist["records"] += len(c["impl"])
+            want_rc = {"segv": -11, "abrt": -6, "finish": 0}[c["end"]]
+            mon = hist_monitor(c, sizes)
+            if c["core"]:
+                hist["monitored"] += 1
+            agree = c["impl"] == c["model"] and c["rc"] == want_rc and not c["bad_ops"]
+            if agree:
+                hist["agree"] += 1
+                # how many of these had a filtered-out innermost frame (what the model's top frame says)
+                if len(c["impl"]) < len(stackfl) + sum(1 for t in c["impl"] if t.startswith("X")):
+                    hist["with_unrecorded_open_frames"] += 1
+            if mon:
+                hist["monitor_failures"] += 1
+            if (mon or not agree) and hreported < 3:
+                hreported += 1
+                C.violation(ctx, "hist%d" % c["idx"], {
+                    "kind": "property-violated-on-implementation" if mon else "model-code-disagreement", "what": mon,
+                    "environment": hist_env(c["opts"]), "options": c["opts"].describe(), "family": c["family"],
+                    "hooks": c["kind"], "ended_by": c["end"],
+                    "harness_script": ["TICK 0"] + c["lines"] + (["RAISE %d" % {"segv": 11, "abrt": 6}[c["end"]]]
+                                                                 if c["end"] != "finish" else []),
+                    "model_script": ["H RESET"] + ["H " + l for l in mcgen.to_model(c["opts"], sizes)] +
+                                    ["H " + l for l in c["lines"]] + (["HSEGV 1"] if c["end"] != "finish" else []),
+                    "impl_records": c["impl"], "model_records": c["model"], "exit_status": c["rc"],
+                    "expected_exit_status": want_rc, "bad_ops": c["bad_ops"], "stderr": c["stderr"],
+                    "run": "UFTRACE_BUFFER=1048576 <environment> h1c04-normal < harness_script (harness/h1_c03_driver.c)",
+                    "theorem": "c04_segv_after_any_history / c04_segv_includes_recordable_open_calls / c04_segv_exact "
+                               "(Crash.segvFlush over the hook model)",
+                }, no_failing_input=not mon)
+
     # ---- (b) e2e ------------------------------------------------------------------------------------
     ctx.notes.append("t(+crash handler)=%.1fs" % ctx.elapsed())
     okm, mlog = make_job.result()
     ctx.notes.append("t(+make)=%.1fs" % ctx.elapsed())
     e2e = {"runs": 0, "records": 0, "failures": 0, "by_mode": {}}
+    fork_jobs, forkp = {}, {}
     if not okm:
         C.violation(ctx, "make", {"kind": "snapshot-build-failed", "log": mlog[-3000:]}, True)
     else:
+        # the fork probe waits for a recorder that may never come back: started now, looked at in the end
+        fd_ = os.path.join(ctx.scratch, "forkprobe")
+        os.makedirs(fd_)
+        fexe = os.path.join(fd_, "fk")
+        fb = C.sh(["gcc", "-O1", "-g", "-pg", "-o", fexe, os.path.join(C.VERIF, "harness", "c04_fork_noend.c")])
+        if fb.returncode != 0:
+            C.violation(ctx, "forkprobe-build", {"kind": "harness-build-failed", "log": fb.stdout[-2000:]}, True)
+        else:
+            fork_pool = ThreadPoolExecutor(3)
+            fork_jobs = {m: fork_pool.submit(run_fork_noend, ctx, fd_, fexe, m) for m in FORK_MODES}
         nprog = 1 if ctx.tier == "quick" else 4
         jobs = []
         for i in range(nprog):
@@ -749,8 +1289,37 @@ def _run(ctx):
             # a native run tells how many events each thread has
             gtn = os.path.join(d, "native.bin")
             subprocess.run([os.path.join(d, "p"), gtn], timeout=60, cwd=d)
-            nev = [g["n"] for g in c03.read_ground_truth(gtn, nt)]
+            native = c03.read_ground_truth(gtn, nt)
+            nev = [g["n"] for g in native]
+            allfns = sorted({c // 2 for g in native for c in g["ev"]})
+            sizes = {fn: sz for _, sz, fn in c03.sym_ranges(os.path.join(d, "p")) if fn >= 0}
             for mode in MODES:
+                # ---- the same terminations under record-time filters: the thread dies with open calls whose ENTRY has
+                # not been written yet; the option set is chosen relative to its call stack at that moment
+                fams_done = []
+                must = (["N-fin", "D-eq", rng.choice(["t-huge", "N-fin+t-huge", "Z-top+t-huge"])] if mode == 6 else
+                        ["N-top", "D-eq", rng.choice(["t-huge", "N-top+t-huge", "D-eq+t-huge"])])
+                nfam = (4 if ctx.tier == "quick" else 12)
+                tries = 0
+                while len(fams_done) < nfam and tries < 60:
+                    tries += 1
+                    killer = rng.randrange(nt)
+                    pts = pending_points(native[killer]["ev"], chain=rng.choice([2, 3, 3, 4]))
+                    if not pts:
+                        continue
+                    k = rng.choice(pts)
+                    stack = stack_at(native[killer]["ev"], k)
+                    if not stack:
+                        continue
+                    sets = filter_sets(rng, stack, sizes, mode, allfns, nouter=1 if killer == 0 else 0)
+                    want = [m for m in must if m not in fams_done and m in sets]
+                    name = want[0] if want else rng.choice(sorted(n for n in sets if n != "none"))
+                    if name in fams_done and tries < 40:
+                        continue
+                    fams_done.append(name)
+                    flt = sets[name]
+                    flt.name = name
+                    jobs.append((d, fl, nt, mode, killer, k, len(jobs), rng.choice([0, 0, 50]), flt))
                 ks = list(range(1, 6 if ctx.tier == "quick" else 31))
                 for _ in range(2 if ctx.tier == "quick" else 8):
                     ks.append(rng.randint(7, 400))
@@ -758,15 +1327,19 @@ def _run(ctx):
                     killer = rng.randrange(nt)
                     if k > nev[killer]:
                         k = max(1, nev[killer] // 2)
-                    jobs.append((d, fl, nt, mode, killer, k, len(jobs), rng.choice([0, 0, 50])))
+                    jobs.append((d, fl, nt, mode, killer, k, len(jobs), rng.choice([0, 0, 50]), None))
 
         def one(job):
-            d, fl, nt, mode, killer, k, jid, pace = job
+            d, fl, nt, mode, killer, k, jid, pace, flt = job
             dd = os.path.join(d, "data%d" % jid)
             gtf = os.path.join(d, "gt%d.bin" % jid)
             opts = ["-b", "4k", "--num-thread", str(1 + jid % 3)]
             if mode == 6:
                 opts += ["-T", "finish_trigger_fn@finish"]
+            if mode == 8:
+                opts += ["--signal", "SIGUSR1@finish"]
+            if flt is not None:
+                opts += flt.args()
             rc, out, err = c03.run_record(ctx, os.path.join(d, "p"), dd, gtf, opts,
                                           prog_args=[killer, k, mode, pace], timeout=30)
             if rc == -9 or rc == 137:
@@ -774,17 +1347,21 @@ def _run(ctx):
             if not os.path.exists(gtf):
                 return job, ["program did not start: " + err[-300:]], 0
             gt = c03.read_ground_truth(gtf, nt)
-            bad, n = check_crash_run(ctx, d, os.path.join(d, "p"), dd, gt, nt, killer, k, mode, rc, err)
+            bad, n = check_crash_run(ctx, d, os.path.join(d, "p"), dd, gt, nt, killer, k, mode, rc, err, flt)
             shm_leftovers(dd)
             shutil.rmtree(dd, ignore_errors=True)
             return job, bad, n
         with ThreadPoolExecutor(6) as ex:
             outs = list(ex.map(one, jobs))
-        for (d, fl, nt, mode, killer, k, jid, pace), bad, n in outs:
+        for (d, fl, nt, mode, killer, k, jid, pace, flt), bad, n in outs:
             e2e["runs"] += 1
             e2e["records"] += n
             bm = e2e["by_mode"].setdefault(MODES[mode], {"runs": 0, "failures": 0})
             bm["runs"] += 1
+            if flt is not None:
+                bf = e2e.setdefault("by_filter", {}).setdefault(flt.name, {"runs": 0, "failures": 0})
+                bf["runs"] += 1
+                bf["failures"] += 1 if bad else 0
             if bad:
                 bm["failures"] += 1
                 e2e["failures"] += 1
@@ -798,9 +1375,14 @@ def _run(ctx):
                     C.violation(ctx, "e2e-%s-%d" % (os.path.basename(d), jid), {
                         "kind": "property-violated-on-implementation", "what": bad[:5], "program": keep,
                         "build": "gcc -O1 -g -no-pie <%s flags> p.c -lpthread" % fl,
-                        "command": "uftrace record --no-event -b 4k --num-thread %d %s./p gt.bin %d %d %d %d" % (
-                            1 + jid % 3, "-T finish_trigger_fn@finish " if mode == 6 else "", killer, k, mode, pace),
+                        "command": "uftrace record --no-event -b 4k --num-thread %d %s%s./p gt.bin %d %d %d %d" % (
+                            1 + jid % 3, "-T finish_trigger_fn@finish " if mode == 6 else "--signal SIGUSR1@finish " if mode == 8 else "",
+                            (" ".join(flt.args()) + " ") if flt is not None else "", killer, k, mode, pace),
                         "termination": MODES[mode], "thread": killer, "at_event": k,
+                        "record_time_filter": flt.name if flt is not None else None,
+                        "expected": "each <tid>.dat = whole records forming a prefix of what the documented filter semantics "
+                                    "select from the thread's own log; the terminating thread's file includes the ENTRY of its "
+                                    "recordable open calls" if flt is not None else None,
                         "theorem": "c04_crash_prefix, c04_crash_whole_records, c04_flush_covers_unended"})
 
     # ---- (c) e2e: fork / exec / exit of children and non-initial tasks --------------------------------
@@ -862,8 +1444,9 @@ def _run(ctx):
                         shutil.copy(os.path.join(d, "x.c"), keep)
                     except OSError:
                         keep = None
+                    bad = sorted(bad, key=lambda b: "timestamps go backwards" in b)
                     C.violation(ctx, "exec-%d-%d" % (scen, jid), {
-                        "kind": "property-violated-on-implementation", "what": bad[:5], "program": keep,
+                        "kind": "property-violated-on-implementation", "what": bad[:8], "program": keep,
                         "build": "gcc -O1 -g -no-pie <%s flags> x.c -lpthread" % fl, "scenario": EXEC_SCEN[scen],
                         "command": "uftrace record --no-event -b 4k --num-thread %d ./x gt.bin %d %d %d %d" % (
                             1 + jid % 3, scen, npre, npost, pk),
@@ -871,8 +1454,31 @@ def _run(ctx):
                                     "exec, in order (timestamps never go back)",
                         "theorem": "c04_exec_flush_order, c04_crash_prefix, c04_flush_covers_unended"})
 
+    # ---- (d) the fork that never completes ----------------------------------------------------------------------
+    fres = {m: j.result() for m, j in fork_jobs.items()}
+    for m, bad in fres.items():
+        forkp[FORK_MODES[m]] = {"runs": 1, "failures": 1 if bad else 0}
+    if fres:
+        obj = {"kind": "property-violated-on-implementation", "program": os.path.join(C.VERIF, "harness", "c04_fork_noend.c"),
+               "build": "gcc -O1 -g -pg -o fk c04_fork_noend.c",
+               "command": "timeout 12 uftrace record --no-event ./fk <mode>   (0 control, 1 clone fails with EAGAIN, 2 killed at clone)",
+               "results": {FORK_MODES[m]: bad for m, bad in fres.items()},
+               "theorem": "c04_recorder_loop_exits (its hypothesis `every task has stopped` is what check_tid_list must establish)"}
+        if fres.get(0):
+            C.violation(ctx, "forkprobe-control", dict(obj, what=fres[0]))
+        elif any(fres.get(m) for m in (1, 2)):
+            hung = [FORK_MODES[m] for m in (1, 2) if any("did not terminate" in b for b in fres.get(m, []))]
+            if hung:
+                c03.report_finding(ctx, "F-C04-FORK-NOEND", "`uftrace record` never terminates when a fork is announced (FORK_START from "
+                                   "libmcount's atfork prepare handler) but no child ever sends FORK_END: check_tid_list() skips the "
+                                   "entry with tid -1 and never counts it as exited, stop_tracing() waits for ever and the data "
+                                   "directory stays without info / <tid>.dat (%s; the control with a successful fork passes)" % (
+                                       "; ".join(hung)), obj, "proposed_fixes/C04-FORK-NOEND.diff")
+            else:
+                C.violation(ctx, "forkprobe", dict(obj, what=[b for m in (1, 2) for b in fres.get(m, [])][:6]))
+
     ctx.coverage.update({
-        "evaluations": nsteps + segv["runs"] + e2e["runs"] + steps["instructions"],
+        "evaluations": nsteps + segv["runs"] + hist["runs"] + e2e["runs"] + steps["instructions"],
         "distinct_nontrivial": len(distinct) + e2e["runs"],
         "rule": "H1: %d random schedules ending with every thread stopped (kill / mtd_dtor / finish trigger) "
                 "followed by the recorder's shutdown sequence, every step compared with the model; %d record_trace_data() "
@@ -883,11 +1489,17 @@ def _run(ctx):
                 "2-3 threads, -pg / -finstrument-functions / -mfentry, under the real recorder; fork/exec: exec from the "
                 "initial task, a forked child, a non-initial thread, a thread of a forked child, a grandchild, and "
                 "_exit / SIGKILL / abort in a forked child, each with an image after exec (or a parent) that fills "
-                "several 4k buffers, with and without a SIGKILL of the new image" % (
-                    len(res), len(sres), depths, maxstack),
+                "several 4k buffers, with and without a SIGKILL of the new image. Under record-time filters: %d call histories "
+                "through the real hooks (-pg / cygprof / mixed) under option sets chosen relative to the call stack at the "
+                "fatal moment (-N top / ancestor, -D, -F, -t, -Z, -L, depth / notrace / trace_off triggers, random sets), "
+                "ended by a real SIGSEGV / SIGABRT / finish trigger, record stream compared with the hook model + "
+                "Crash.segvFlush; e2e: every termination mode at points with pending ENTRY records x 4 (thorough 12) "
+                "filter option sets per mode; a fork that never completes (clone fails / killed at clone)" % (
+                    len(res), len(sres), depths, maxstack, hist["runs"]),
         "h1_schedules": len(res), "h1_steps_compared": nsteps, "h1_stop_kinds": hows, "h1_flushes_of_unended_buffers": flushes,
         "model_code_disagreements": disagree, "monitor_failures_on_impl": monfail,
-        "crash_handler": segv, "kill_at_every_instruction": steps, "e2e": e2e, "e2e_fork_exec": ex2,
+        "crash_handler": segv, "crash_handler_under_filters": hist, "kill_at_every_instruction": steps, "e2e": e2e,
+        "e2e_fork_exec": ex2, "e2e_fork_never_completes": forkp,
         "exhaustive": False,
         "samples": [{"config": {"threads": d["gen"].nt, "stop": d["gen"].how}, "last_impl": c03.norm_state(d["impl"][-1])[:300]}
                     for d in res[:2] if d["impl"]],
@@ -901,6 +1513,13 @@ def _run(ctx):
         "kill view after every instruction of one call) and by the e2e runs",
         "x86-64 TSO store order (bytes before size); SIGCHLD / /proc/<tid>/stat / FIFO HUP semantics are the "
         "environment of c04_recorder_loop_exits",
+        "record-time filters e2e: `what the thread executed` = spec_stream (FILTERS of uftrace-record.md: -F, -N, -D, -Z; -t "
+        "only with a threshold no call reaches) applied to the thread's own log; a finish trigger is expected to fire only "
+        "where the filters let its function through (inside a -N region, outside every -F region or beyond -D the -pg "
+        "path never looks at the trigger); exec / exit flush their open calls in libmcount's PLT hook, so not under "
+        "--no-libcall; a trace in which nothing was selected (no <tid>.dat) may be answered with `No data available`",
+        "in-process histories: one thread, scripted clock, 1 MB buffer (no switch); the fork / exec / exit flush itself "
+        "(plthook.c PLT_FL_FLUSH) is reached only e2e",
     ]
     return C.finish(ctx)
 
@@ -920,4 +1539,34 @@ def run(ctx):
 def replay(ctx, path):
     r = json.load(open(path))
     print(json.dumps({k: v for k, v in r.items() if k not in ("harness_script", "model_script")}, indent=1))
+    if "harness_script" in r and "environment" in r:
+        # a call history under record-time filters ended by a signal / finish trigger: run it again on the current tree
+        ctx.snapshot()
+        exe, log = c03.build_h1(ctx, out="h1c04")
+        if not exe:
+            print("harness build failed:", log[-500:])
+            return 1
+        sizes = mcheck.sym_sizes(exe)
+        c = {"idx": 0, "lines": [l for l in r["harness_script"] if not l.startswith(("TICK", "RAISE"))],
+             "end": r.get("ended_by", "segv"), "opts": None}
+        rr = c03.run_harness(ctx, exe, 31000, 1 << 20, r["harness_script"], extra_env=r["environment"])
+        syms = [int(x, 16) for l in rr["lines"] if l.startswith("SYMS") for x in l.split()[1:]]
+        toks = []
+        for typ, payload in rr["msgs"]:
+            if typ == "REC_START":
+                try:
+                    data = open("/dev/shm" + payload.decode(errors="replace").rstrip("\0"), "rb").read()
+                except OSError:
+                    continue
+                t = mcheck.decode(data[16:16 + int.from_bytes(data[0:4], "little")].hex(), syms, sizes)
+                toks += [] if t == "-" else t.split()
+        c03.cleanup_run(rr)
+        mtoks = []
+        for l in c03.run_model("C04", r["model_script"]):
+            m = re.search(r"recs=\[?([^\]]*)\]?", l)
+            if m and m.group(1).strip() not in ("-", ""):
+                mtoks += m.group(1).split()
+        print("IMPL  (exit status %s):" % rr["rc"], toks)
+        print("MODEL:", mtoks)
+        return 0 if toks == mtoks and rr["rc"] == r.get("expected_exit_status", rr["rc"]) else 1
     return 0
